@@ -94,13 +94,38 @@ NoProofNoAccept ==
 NonceFresh ==
   \A n1, n2 \in 1..3 : n1 # n2 => HonestEv(1, 1, 1, 1, n1).proof # HonestEv(1, 1, 1, 1, n2).proof
 
-VARIABLE k
+VARIABLES k, reqs, nextr
 Cases == {<<c, cl>> \in Components \X Classes : Applicable(c, cl)}
 CaseSeq == LET RECURSIVE F(_) F(T) == IF T = {} THEN <<>> ELSE LET m == CHOOSE a \in T : TRUE IN <<m>> \o F(T \ {m}) IN F(Cases)
-OInit == k = 0 /\ srv = <<>> /\ steps = 0
-ONext == k < Len(CaseSeq) /\ k' = k + 1 /\ UNCHANGED <<srv, steps>>
-OSpec == OInit /\ [][ONext]_<<k, srv, steps>>
+OInit == k = 0 /\ srv = <<>> /\ steps = 0 /\ reqs = <<>> /\ nextr = 1
+ONext == k < Len(CaseSeq) /\ k' = k + 1 /\ UNCHANGED <<srv, steps, reqs, nextr>>
+OSpec == OInit /\ [][ONext]_<<k, srv, steps, reqs, nextr>>
 Checks == k = 1 => (ObliviousAll /\ Separated /\ BlindFresh /\ ProofComplete /\ ProofSound /\ NoProofNoAccept /\ NonceFresh)
 EmitInv == k >= 1 => PrintT(<<"DLEQ", ToJson([comp |-> CaseSeq[k][1], cls |-> CaseSeq[k][2],
                                             accept |-> IF VerifyInst(Subst(CaseSeq[k][1], CaseSeq[k][2])) THEN 1 ELSE 0])>>)
+---------------------------------------------------------------------------
+(* Request histories (C12): clients issue blinded requests one after the other, each with a   *)
+(* fresh blinding; whatever the history, the finalised output of a request is the function    *)
+(* Direct(server, input, tag) and the blinded points sent so far are pairwise different.      *)
+hvars == <<reqs, nextr, srv, steps, k>>
+HInit == reqs = <<>> /\ nextr = 1 /\ srv = <<>> /\ steps = 0 /\ k = 0
+Request(s, x, md, v) ==
+  /\ Len(reqs) < 3
+  /\ LET r  == nextr
+         bp == Blind(x, r)
+         ev == EvalOf(Servers[s], bp, md, v, r)
+     IN reqs' = Append(reqs, [s |-> s, x |-> x, md |-> md, bp |-> bp, ok |-> ev.ok,
+                              fin |-> IF ev.ok THEN Finalize(x, md, Unblind(ev.out, r)) ELSE <<"none">>,
+                              verified |-> IF ev.ok /\ v THEN Verify(Servers[s].pk, bp, ev, md) ELSE TRUE])
+  /\ nextr' = nextr + 1
+  /\ UNCHANGED <<srv, steps, k>>
+HNext == \E s \in 1..2, x \in Inputs, md \in Tags, v \in BOOLEAN : Request(s, x, md, v)
+HSpec == HInit /\ [][HNext]_hvars
+HistoryIndependent ==
+  \A i \in 1..Len(reqs) :
+     /\ reqs[i].ok = (reqs[i].md \in Servers[reqs[i].s].pk.mds)
+     /\ reqs[i].fin = Direct(reqs[i].s, reqs[i].x, reqs[i].md)
+     /\ reqs[i].verified
+RequestsUnlinkable ==
+  \A i, j \in 1..Len(reqs) : i # j => reqs[i].bp # reqs[j].bp /\ reqs[i].bp # HashPt(reqs[i].x)
 =============================================================================
